@@ -73,6 +73,7 @@ CHECKS = {
         "legs": [
             {"test": "TestC03", "quick": {"checks": 1000, "timeout": "15m"},
              "thorough": {"checks": 5000, "shards": 4, "timeout": "60m"}},
+            {"test": "TestC03_TailEOF", "quick": {"checks": 60, "timeout": "15m"}, "thorough": {"checks": 1500, "shards": 2, "timeout": "60m"}},
             {"test": "TestC03_LongHandler", "quick": {"checks": 1, "timeout": "15m", "shrinktime": "1s"},
              "thorough": {"checks": 2, "timeout": "60m", "shrinktime": "1s"}},
         ],
@@ -176,6 +177,7 @@ CHECKS = {
         "legs": [
             {"test": "TestC05", "quick": {"checks": 800, "timeout": "15m"},
              "thorough": {"checks": 3000, "shards": 4, "timeout": "60m"}},
+            {"test": "TestC05_TailEOF", "quick": {"checks": 60, "timeout": "15m"}, "thorough": {"checks": 1500, "shards": 2, "timeout": "60m"}},
             {"test": "TestC05_LongHandler", "quick": {"checks": 1, "timeout": "15m", "shrinktime": "1s"},
              "thorough": {"checks": 2, "timeout": "60m", "shrinktime": "1s"}},
         ],
